@@ -645,8 +645,6 @@ KNOWN_CLASS_UNIT = "bvm-unit-value-used-as-number"
 # GetUpValue of an OPEN upvalue whose destination lies above the stack top (or several words at the top): the source slice
 # points into the stack that set_vec_range is about to grow (Vec::resize / push may reallocate): use-after-free read
 KNOWN_CLASS_ALIAS = "bvm-open-upvalue-read-grows-the-stack"
-# GetArrayElem / SetArrayElem on an array of length 0: vm.rs `continue`s the interpreter loop without `pcounter += increment`
-KNOWN_CLASS_EMPTY_ARRAY = "bvm-empty-array-index-reexecutes"
 
 
 def unit_operand_class(prog, detail):
@@ -932,14 +930,16 @@ def run_part(ck, quick=True):
             fid = next((f for f in known.values() if f.get("cls") == KNOWN_CLASS_ALIAS), None)
             if fid:
                 ck.known(fid, "bytecode VM: %s reads an open upvalue into registers above the stack top: %s" % (rq["kind"], rq["src"].replace("\n", " ")[:120]))
-        if rq["kind"].startswith("corpus:finding_empty_array") and any("panic" in sm for sm in r.get("samples", [])) \
-                and any(o and o["kind"] == "fault" for o in a.get("samples", [])):
-            # GetArrayElem on an empty array: `continue` without advancing the program counter; with dst = arr the second
-            # execution panics "Invalid ArrayIdx: raw_id=0" (model: DynHandle), else the VM hangs
-            cov["witnesses_reproduced"] += 1
-            fid = next((f for f in known.values() if f.get("cls") == KNOWN_CLASS_EMPTY_ARRAY), None)
-            if fid:
-                ck.known(fid, "bytecode VM: indexing an empty array re-executes GetArrayElem: " + rq["src"].replace("\n", " ")[:120])
+        if rq["kind"].startswith("corpus:fixed_"):
+            # a repaired defect (fixed_f67: indexing an empty array re-executed the instruction: panic or hang): the real VM
+            # and the model both play the program to the end
+            bad_vm = "panic" in (r.get("main") or {}) or any("panic" in sm for sm in r.get("samples", [])) or len(r.get("samples", [])) < rq["n"]
+            bad_model = any(o and o["kind"] != "ret" for o in a.get("samples", []) + [a.get("main")])
+            if bad_vm or bad_model or c is not None:
+                report("bytecode VM: a repaired defect is back (%s): the real VM %s, the model %s" % (
+                    rq["kind"][7:], "panics / stops" if bad_vm else "plays", "stops" if bad_model else "plays"), i, a)
+                continue
+            cov["fixed_witnesses_ok"] = cov.get("fixed_witnesses_ok", 0) + 1
         if c is None:
             cov["closure_programs_agree"] += closure_prog
             cov["model_agrees"] += 1
@@ -979,8 +979,15 @@ def run_part(ck, quick=True):
                 continue
             model_outs = [o for o in a.get("samples", []) + [a.get("main")] if o]
             mfault = next((o for o in model_outs if o["kind"] in ("fault", "unsupported")), None)
+            if stop in ("F DynSignature", "F DynReentry", "F DynCellWidth"):
+                # checks only the instrumentation makes, about facts the COMPILER is responsible for (an indirect callee takes
+                # the words the call site passes and returns the words it expects, a closure is not entered while its own state
+                # storage is in use, a cell is as wide as the upindexes entry says): never seen on the unchanged compiler
+                report("bytecode VM: bytecode the compiler emitted stops the instrumented semantics with %s (an indirect call / "
+                       "upvalue that does not fit its site): the real VM goes on with the wrong words" % stop[2:], i, a)
+                continue
             if stop not in (None, "-"):
-                # a dynamic check fired: a stale handle (C12's subject) or one of the checks only the instrumentation makes
+                # a dynamic check fired: a stale handle (C12's subject) or a write through an open upvalue
                 cov["accepted_dynamic_stop"][stop] = cov["accepted_dynamic_stop"].get(stop, 0) + 1
                 if mfault and not (mfault["kind"] == "fault" and mfault["what"].startswith("Dyn")):
                     # allowed only after a strict-only stop (then the two semantics may part, C03_bvm_strict_agrees)
